@@ -283,11 +283,11 @@ Section Instance.
      its own consultation or any primitive it is built on (bar the swallowed ones) was failed. *)
   Theorem failfs_composite : forall (w : world bstate) id o m cp a bind fn,
     olookup id (w_objs w) = Some o -> wo_wrapped o = true -> comp_of m = Some cp ->
-    let r := fst (wstep base_step T ff (comp_prog tmpname bad_pattern fuel) w (mkCall id m a bind)) in
+    let r := fst (wrap_wstep base_step T ff (comp_prog tmpname bad_pattern fuel) w (mkCall id m a bind)) in
     In (fn, true) (r_cons r) -> swallowed cp fn = false -> a_err (r_ans r) <> None.
   Proof.
     intros w id o m cp a bind fn Ho Hw Hcp. cbv zeta.
-    unfold Wrapper.wstep, Wrapper.call_obj. cbn [c_obj c_meth c_args c_bind]. rewrite Ho, Hw.
+    unfold Wrapper.wrap_wstep, Wrapper.call_obj. cbn [c_obj c_meth c_args c_bind]. rewrite Ho, Hw.
     unfold Wrapper.run1.
     pose proof (failfs_ok_check T m T_ok) as Hc. unfold failfs_check in Hc.
     assert (Hgood : forall w' acc, acc = [] ->
